@@ -88,6 +88,89 @@ def field_fidelity(db, rep, rule="D2-FIELD-FIDELITY"):
 
 
 
+def d4_codec(db, rep, rule="D4-CODEC"):
+    """integer codecs of the bytecode format: byte order, the 255 escape and its threshold, widening before shifting."""
+    # ---- D4 integer codecs ---------------------------------------------------
+    def shifts_enc(fname):
+        f = db.func(fname, "orcbytecode")
+        out = []
+        for c in f.calls("bytecode_append_byte"):
+            a = strip_casts(c.args()[1])
+            sh = 0
+            for x in a.walk():
+                if x.k == "BinaryOperator" and x.op == ">>":
+                    sh = strip_casts(x.c[1]).v
+            out.append(sh if a.v is None else ("const", a.v))
+        return out
+
+    def shifts_dec(fname):
+        f = db.func(fname, "orcbytecode")
+        out = []
+        for c in f.calls("orc_bytecode_parse_get_byte"):
+            sh = 0
+            p = c.parent
+            while p is not None and p.k in ("CStyleCastExpr",):
+                p = p.parent
+            if p is not None and p.k == "BinaryOperator" and p.op == "<<":
+                sh = strip_casts(p.c[1]).v
+            out.append(sh)
+        return out
+    for e, d, n in (("bytecode_append_uint32", "orc_bytecode_parse_get_uint32", 4), ("bytecode_append_uint64", "orc_bytecode_parse_get_uint64", 8)):
+        se, sd = shifts_enc(e), shifts_dec(d)
+        rep.check(se == sd and len(se) == n, rule, "orc/orcbytecode.c::" + e, "byte-order",
+                  "bytes written at shifts %s are read back at the same shifts" % se, "byte order differs: written %s, read %s" % (se, sd))
+    se, sd = shifts_enc("bytecode_append_int"), shifts_dec("orc_bytecode_parse_get_int")
+    rep.check(se == [0, ("const", 255), 0, 8] and sd == [0, 0, 8], rule, "orc/orcbytecode.c::bytecode_append_int", "escape",
+              "one byte below 255, else 255 + low + high; decoder mirrors it", "integer escape codec differs: encoder %s decoder %s" % (se, sd))
+    ai = db.func("bytecode_append_int", "orcbytecode")
+    thr_e = [cmp_parts(n.c[0])[2].v for n in ai.walk() if n.k == "IfStmt" and cmp_parts(n.c[0]) and cmp_parts(n.c[0])[1] == "<"]
+    gi = db.func("orc_bytecode_parse_get_int", "orcbytecode")
+    thr_d = [cmp_parts(n.c[0])[2].v for n in gi.walk() if n.k == "IfStmt" and cmp_parts(n.c[0]) and cmp_parts(n.c[0])[1] == "=="]
+    rep.check(thr_e[:1] == [255] and thr_d == [255], rule, "orc/orcbytecode.c::bytecode_append_int", "threshold",
+              "escape threshold 255 on both sides", "escape thresholds differ: encoder %s decoder %s" % (thr_e, thr_d))
+
+    # ---- D4b: every byte is widened before it is shifted into place ------------
+    # `get_byte() << k` is computed in the promoted type of its left operand.  If that type is narrower than the
+    # accumulator and signed, a set bit 7 of the byte at k == bits-8 makes the term negative and the conversion to the
+    # accumulator sign-extends it (all higher bytes become 0xff); if k + 8 exceeds the type's width, bits are lost.
+    INT_TYPES = {"int": (32, True), "unsigned int": (32, False), "orc_uint32": (32, False), "orc_int32": (32, True),
+                 "orc_uint64": (64, False), "orc_int64": (64, True), "unsigned long": (64, False), "long": (64, True),
+                 "unsigned long long": (64, False), "long long": (64, True), "orc_uint8": (8, False), "orc_uint16": (16, False),
+                 "unsigned char": (8, False), "unsigned short": (16, False)}
+    nshift = 0
+    for fname in ("orc_bytecode_parse_get_int", "orc_bytecode_parse_get_uint32", "orc_bytecode_parse_get_uint64"):
+        f = db.func(fname, "orcbytecode")
+        for n in f.walk():
+            if not (n.k == "BinaryOperator" and n.op == "<<"):
+                continue
+            if not any(x.k == "CallExpr" and x.name == "orc_bytecode_parse_get_byte" for x in n.c[0].walk()):
+                continue
+            k = strip_casts(n.c[1]).v
+            st = INT_TYPES.get(n.get("ty"))
+            # accumulator: the assignment this term is OR-ed / stored into
+            p_ = n.parent
+            while p_ is not None and p_.k not in ("CompoundAssignOperator", "BinaryOperator", "ReturnStmt", "VarDecl") or (p_ is not None and p_.k == "BinaryOperator" and p_.op not in ("=",)):
+                p_ = p_.parent
+            if p_ is None or k is None:
+                raise AnalysisBroken("%s: shift term without constant amount / accumulator" % fname)
+            tt = INT_TYPES.get(p_.c[0].get("ty") if p_.k != "ReturnStmt" else None)
+            if st is None or tt is None:
+                raise AnalysisBroken("%s: unknown integer type %r / %r in shift term" % (fname, n.get("ty"), p_.c[0].get("ty")))
+            nshift += 1
+            lost = k + 8 > st[0]
+            sext = st[1] and k + 8 > st[0] - 1 and tt[0] > st[0]
+            rep.check(not lost and not sext, rule, where(f), "widen-before-shift<<%d" % k,
+                      "byte shifted by %d in %s, accumulated in %s: no bits lost, no sign extension" % (k, n.get("ty"), p_.c[0].get("ty")),
+                      "byte << %d is computed in `%s` and accumulated in `%s`: %s" % (
+                          k, n.get("ty"), p_.c[0].get("ty"),
+                          "the high bits are shifted out" if lost else
+                          "a byte >= 0x80 makes the term negative and the widening conversion sets all higher bytes (decoded 64-bit constants with bit 31 set come back with 0xffffffff on top)"),
+                      line=n.line)
+    if nshift < 10:
+        raise AnalysisBroken("only %d shift terms found in the integer decoders" % nshift)
+
+
+
 def run(ctx):
     db = ctx.db()
     rep = ctx.report
@@ -386,84 +469,43 @@ def run(ctx):
                   "the encoder emits the 32-bit ORC_BC_ADD_CONSTANT form for e.g. a %d-byte constant %#x (guards: %s); the decoder rebuilds it as "
                   "sign_extend_32(low word), a different value" % ((bad[0] if bad else (0, 0)) + ([unparse(x[0]) for x in rel],)), line=c.line)
 
-    # ---- D4 integer codecs ---------------------------------------------------
-    def shifts_enc(fname):
-        f = db.func(fname, "orcbytecode")
-        out = []
-        for c in f.calls("bytecode_append_byte"):
-            a = strip_casts(c.args()[1])
-            sh = 0
-            for x in a.walk():
-                if x.k == "BinaryOperator" and x.op == ">>":
-                    sh = strip_casts(x.c[1]).v
-            out.append(sh if a.v is None else ("const", a.v))
-        return out
-
-    def shifts_dec(fname):
-        f = db.func(fname, "orcbytecode")
-        out = []
-        for c in f.calls("orc_bytecode_parse_get_byte"):
-            sh = 0
-            p = c.parent
-            while p is not None and p.k in ("CStyleCastExpr",):
-                p = p.parent
-            if p is not None and p.k == "BinaryOperator" and p.op == "<<":
-                sh = strip_casts(p.c[1]).v
-            out.append(sh)
-        return out
-    for e, d, n in (("bytecode_append_uint32", "orc_bytecode_parse_get_uint32", 4), ("bytecode_append_uint64", "orc_bytecode_parse_get_uint64", 8)):
-        se, sd = shifts_enc(e), shifts_dec(d)
-        rep.check(se == sd and len(se) == n, "D4-CODEC", "orc/orcbytecode.c::" + e, "byte-order",
-                  "bytes written at shifts %s are read back at the same shifts" % se, "byte order differs: written %s, read %s" % (se, sd))
-    se, sd = shifts_enc("bytecode_append_int"), shifts_dec("orc_bytecode_parse_get_int")
-    rep.check(se == [0, ("const", 255), 0, 8] and sd == [0, 0, 8], "D4-CODEC", "orc/orcbytecode.c::bytecode_append_int", "escape",
-              "one byte below 255, else 255 + low + high; decoder mirrors it", "integer escape codec differs: encoder %s decoder %s" % (se, sd))
-    ai = db.func("bytecode_append_int", "orcbytecode")
-    thr_e = [cmp_parts(n.c[0])[2].v for n in ai.walk() if n.k == "IfStmt" and cmp_parts(n.c[0]) and cmp_parts(n.c[0])[1] == "<"]
-    gi = db.func("orc_bytecode_parse_get_int", "orcbytecode")
-    thr_d = [cmp_parts(n.c[0])[2].v for n in gi.walk() if n.k == "IfStmt" and cmp_parts(n.c[0]) and cmp_parts(n.c[0])[1] == "=="]
-    rep.check(thr_e[:1] == [255] and thr_d == [255], "D4-CODEC", "orc/orcbytecode.c::bytecode_append_int", "threshold",
-              "escape threshold 255 on both sides", "escape thresholds differ: encoder %s decoder %s" % (thr_e, thr_d))
-
-    # ---- D4b: every byte is widened before it is shifted into place ------------
-    # `get_byte() << k` is computed in the promoted type of its left operand.  If that type is narrower than the
-    # accumulator and signed, a set bit 7 of the byte at k == bits-8 makes the term negative and the conversion to the
-    # accumulator sign-extends it (all higher bytes become 0xff); if k + 8 exceeds the type's width, bits are lost.
-    INT_TYPES = {"int": (32, True), "unsigned int": (32, False), "orc_uint32": (32, False), "orc_int32": (32, True),
-                 "orc_uint64": (64, False), "orc_int64": (64, True), "unsigned long": (64, False), "long": (64, True),
-                 "unsigned long long": (64, False), "long long": (64, True), "orc_uint8": (8, False), "orc_uint16": (16, False),
-                 "unsigned char": (8, False), "unsigned short": (16, False)}
-    nshift = 0
-    for fname in ("orc_bytecode_parse_get_int", "orc_bytecode_parse_get_uint32", "orc_bytecode_parse_get_uint64"):
-        f = db.func(fname, "orcbytecode")
-        for n in f.walk():
-            if not (n.k == "BinaryOperator" and n.op == "<<"):
+    # ---- D2e: the constructors the decoder calls always create a NEW slot -----------------------------------
+    # Instructions refer to variables by slot number, and the decoder re-creates the variables in their original order
+    # under placeholder names ("c", "s", "d" ...).  Slot numbers survive only if every orc_program_add_constant /
+    # _constant_int64 call appends: the value returned (when no error) is ORC_VAR_C1 + n_const_vars, incremented on the way.
+    for ctor in ("orc_program_add_constant", "orc_program_add_constant_int64"):
+        g = db.func(ctor, "orcprogram")
+        fwd = [c for c in g.calls() if c.name in ("orc_program_add_constant_int64",) and c.name != ctor]
+        incs = [n for n in g.walk() if (n.k == "UnaryOperator" and n.op == "++" and (access_path(n.c[0]) or "").endswith("->n_const_vars")) or
+                (n.k == "CompoundAssignOperator" and n.op == "+=" and (access_path(n.c[0]) or "").endswith("->n_const_vars"))]
+        for r in g.walk():
+            if r.k != "ReturnStmt" or not r.c or r.c[0] is None:
                 continue
-            if not any(x.k == "CallExpr" and x.name == "orc_bytecode_parse_get_byte" for x in n.c[0].walk()):
+            e = strip_casts(r.c[0])
+            if e.v is not None:
+                continue                    # error returns (0 / -1)
+            if e.k == "CallExpr" and e.name == "orc_program_add_constant_int64":
+                rep.ok("D2-CONST-SLOTS", where(g), "%s:forwards" % ctor, "forwards to orc_program_add_constant_int64")
                 continue
-            k = strip_casts(n.c[1]).v
-            st = INT_TYPES.get(n.get("ty"))
-            # accumulator: the assignment this term is OR-ed / stored into
-            p_ = n.parent
-            while p_ is not None and p_.k not in ("CompoundAssignOperator", "BinaryOperator", "ReturnStmt", "VarDecl") or (p_ is not None and p_.k == "BinaryOperator" and p_.op not in ("=",)):
-                p_ = p_.parent
-            if p_ is None or k is None:
-                raise AnalysisBroken("%s: shift term without constant amount / accumulator" % fname)
-            tt = INT_TYPES.get(p_.c[0].get("ty") if p_.k != "ReturnStmt" else None)
-            if st is None or tt is None:
-                raise AnalysisBroken("%s: unknown integer type %r / %r in shift term" % (fname, n.get("ty"), p_.c[0].get("ty")))
-            nshift += 1
-            lost = k + 8 > st[0]
-            sext = st[1] and k + 8 > st[0] - 1 and tt[0] > st[0]
-            rep.check(not lost and not sext, "D4-CODEC", where(f), "widen-before-shift<<%d" % k,
-                      "byte shifted by %d in %s, accumulated in %s: no bits lost, no sign extension" % (k, n.get("ty"), p_.c[0].get("ty")),
-                      "byte << %d is computed in `%s` and accumulated in `%s`: %s" % (
-                          k, n.get("ty"), p_.c[0].get("ty"),
-                          "the high bits are shifted out" if lost else
-                          "a byte >= 0x80 makes the term negative and the widening conversion sets all higher bytes (decoded 64-bit constants with bit 31 set come back with 0xffffffff on top)"),
-                      line=n.line)
-    if nshift < 10:
-        raise AnalysisBroken("only %d shift terms found in the integer decoders" % nshift)
+            ok = False
+            why = unparse(e)
+            if e.k == "DeclRefExpr":
+                defs = [d for d in g.walk() if d.k == "BinaryOperator" and d.op == "=" and access_path(d.c[0]) == e.name and g.dominates(d, r)]
+                alld = [d for d in g.walk() if d.k == "BinaryOperator" and d.op == "=" and access_path(d.c[0]) == e.name]
+                if defs:
+                    last = max(defs, key=lambda d: (d.line, d.id))
+                    t = unparse(strip_casts(last.c[1])).replace(" ", "")
+                    fresh = "n_const_vars" in t and "ORC_VAR_C1" in t or "n_const_vars" in t and str(db.enum("ORC_VAR_C1")) in t
+                    later = [d for d in alld if d is not last and g.dominates(last, d)]
+                    ok = fresh and not later and any(g.dominates(i_, r) for i_ in incs)
+                    why = "`%s` = %s" % (e.name, [unparse(d.c[1]) for d in alld])
+                else:
+                    why = "`%s` has no definition dominating this return (%s)" % (e.name, [unparse(d.c[1]) for d in alld])
+            rep.check(ok, "D2-CONST-SLOTS", where(g), "%s:returns-new-slot" % ctor, "every successful call appends a constant slot",
+                      "%s can return an existing slot (%s): the decoder re-creates constants under one placeholder name, so equal-valued constants "
+                      "collapse and every later operand slot number of the reconstructed program is off" % (ctor, why), line=r.line)
+
+    d4_codec(db, rep)
 
     if ctx.tier == "thorough":
         d5(ctx, rep)
